@@ -60,11 +60,12 @@ vars == <<d, E, tab, fac, lastf, cls, avr, out, hist, stage, w, pd>>
 --------------------------------------------------------------------------
 \* the stated parameter lattice
 TimesK  == {1, 2, -1}                 \* t = k * unit
+TimesK0 == TimesK \cup {0}             \* first-level tables are also prepared at t = 0 (no phase at all)
 Units   == {0, 1}                     \* 0: unit 1, 1: unit pi/4
 Scales2 == {1, 3, 5, -7, 9, 13}       \* averaging scale = c2/2 * unit   (signs: the code takes fabs)
 Cuts2   == {1, 3, 5, -7, 9, 13}       \* cutoff = c2/2 (* unit for AvgRamp)
 Ramps   == {0, 1, -2, 4}              \* ramp = r (* unit for AvgRamp); powers of two => dyadic factors
-Ranges  == {<<0,1>>, <<0,2>>, <<1,3>>, <<-1,2>>, <<0,8>>, <<-3,4>>}   \* [k0,k1] * pi/4, k0 < k1
+Ranges  == {<<0,1>>, <<0,2>>, <<1,3>>, <<-1,2>>, <<0,8>>, <<-3,4>>, <<-1,1>>, <<-2,2>>}   \* [k0,k1] * pi/4, k0 < k1
 
 --------------------------------------------------------------------------
 \* pairs, row-major, 0-based levels
@@ -142,7 +143,7 @@ ChooseSpec == /\ stage = 0
 
 \* PrepareEvolve(buffer, t)
 DoPlain == /\ stage = 1
-           /\ \E u \in Units : \E k \in TimesK :
+           /\ \E u \in Units : \E k \in TimesK0 :
                 /\ tab' = [kind |-> "plain", u |-> u, k |-> k, k1 |-> 0]
                 /\ hist' = <<Act("plain",u,k,0,0)>>
                 /\ w' = [p \in 1..NP(d) |-> IF u = 1 THEN Zeta(k * Omega(p)) ELSE S0]
@@ -151,7 +152,7 @@ DoPlain == /\ stage = 1
 
 \* PrepareEvolve(buffer, t, scale, avr)
 DoAvg == /\ stage = 1
-         /\ \E u \in Units : \E k \in TimesK : \E s2 \in Scales2 :
+         /\ \E u \in Units : \E k \in TimesK0 : \E s2 \in Scales2 :
               /\ tab' = [kind |-> "plain", u |-> u, k |-> k, k1 |-> 0]
               /\ hist' = <<Act("avg",u,k,s2,0)>>
               /\ fac'   = [p \in 1..NP(d) |-> FactorOf(Omega(p)*k, s2, 0)]
